@@ -184,9 +184,11 @@ struct vf_alloc {
   T *allocate(size_type n) {
     if (!(FL & VF_A_NOTHROW) && vf_fault(VF_K_ALLOC)) throw vf_exc{2};
     vf_assert((uint64_t)n <= (uint64_t)max_size(), "C12: allocator asked for more than max_size() elements");
-    return static_cast<T *>(vf_allocate((uint32_t)id, (uint64_t)n, sizeof(T)));
+    return static_cast<T *>(vf_allocate(ledger_id(), (uint64_t)n, sizeof(T)));
   }
-  void deallocate(T *p, size_type n) noexcept { vf_deallocate((uint32_t)id, p, (uint64_t)n, sizeof(T)); }
+  void deallocate(T *p, size_type n) noexcept { vf_deallocate(ledger_id(), p, (uint64_t)n, sizeof(T)); }
+  // what the ledger records as the owner: all instances of an always-equal allocator are the same owner
+  uint32_t ledger_id() const noexcept { return (FL & VF_A_IAE) ? 0u : (uint32_t)id; }
   size_type max_size() const noexcept {
     return (FL & VF_A_MAXSZ) ? (size_type)vf_max_size_value
                              : (size_type)((std::numeric_limits<size_type>::max)() / sizeof(T));
@@ -194,9 +196,11 @@ struct vf_alloc {
   vf_alloc select_on_container_copy_construction() const noexcept {
     return (FL & VF_A_SOCC) ? vf_alloc(id + 100) : vf_alloc(id);
   }
-  friend bool operator==(const vf_alloc& a, const vf_alloc& b) noexcept { return (FL & VF_A_IAE) ? true : a.id == b.id; }
-  friend bool operator!=(const vf_alloc& a, const vf_alloc& b) noexcept { return !(a == b); }
 };
+template <typename T, typename U, unsigned FL, typename S>
+inline bool operator==(const vf_alloc<T, FL, S>& a, const vf_alloc<U, FL, S>& b) noexcept { return (FL & VF_A_IAE) ? true : a.id == b.id; }
+template <typename T, typename U, unsigned FL, typename S>
+inline bool operator!=(const vf_alloc<T, FL, S>& a, const vf_alloc<U, FL, S>& b) noexcept { return !(a == b); }
 
 // ---------------------------------------------------------------- state builder and INV
 // Private members of the header are reached with clang's -fno-access-control (harness TU only).
@@ -211,13 +215,14 @@ struct vf_sv<gch::small_vector<T, N, A>> {
   // cap == N  => inline representation; cap > N => heap block of exactly cap elements.
   static void install(V& v, unsigned cap, unsigned size, const uint32_t *vals) {
     T *p;
-    if (cap > N) p = v.unchecked_allocate((typename V::size_ty)cap);
-    else p = v.storage_ptr();
+    typename V::base& b = (typename V::base&)v;   // C-style cast reaches the private base with either compiler
+    if (cap > N) p = b.unchecked_allocate((typename V::size_ty)cap);
+    else p = b.storage_ptr();
     for (unsigned i = 0; i < size; ++i) E::make(static_cast<void *>(p + i), vals[i]);
-    v.set_data(p, (typename V::size_ty)cap, (typename V::size_ty)size);
+    b.set_data(p, (typename V::size_ty)cap, (typename V::size_ty)size);
   }
 
-  static uint32_t id_of(const V& v) noexcept { return (uint32_t)v.get_allocator().id; }
+  static uint32_t id_of(const V& v) noexcept { return v.get_allocator().ledger_id(); }
 
   // representation invariant (C02) + lifetime/ledger agreement (C03/C04) of one container
   static void check_inv(V& v, uint32_t expect_id_known, uint32_t expect_id) {
